@@ -284,4 +284,90 @@ theorem pesach_guard_boundary :
     jewish_pesach 2272 = (4, 13) ∧ jewish_pesach 2519 = (4, 15) ∧ jewish_pesach 2766 = (4, 16) := by
   decide +kernel
 
+/-! ### `float` arguments: the result depends on the integer part only; the range tests see the fraction -/
+
+/-- `Epoch.easter(y + f)`, `0 ≤ f < 1`: `int()` truncates toward zero, so a non-negative year keeps its
+    integer part and a negative non-integer year is rounded UP. -/
+theorem easter_float_year (y : Int) (f : ℚ) (h0 : 0 ≤ f) (h1 : f < 1) :
+    (0 ≤ y → easter_num ((y : ℚ) + f) = easter y) ∧
+    (y < 0 → 0 < f → easter_num ((y : ℚ) + f) = easter (y + 1)) ∧
+    easter_num (ofInt y) = easter y := by
+  refine ⟨fun hy => ?_, fun hy hf => ?_, ?_⟩
+  · unfold easter_num; rw [ptrunc_nonneg_frac y f hy h0 h1]
+  · unfold easter_num; rw [ptrunc_neg_frac y f hy hf h1]
+  · unfold easter_num; rw [ptrunc_ofInt]
+
+/-- `Epoch.jewish_pesach(y + f)`: `iint()` floors, for every year and every fraction. -/
+theorem pesach_float_year (y : Int) (f : ℚ) (h0 : 0 ≤ f) (h1 : f < 1) :
+    jewish_pesach_num ((y : ℚ) + f) = jewish_pesach y := by
+  unfold jewish_pesach_num; rw [pfloor_add_frac y f h0 h1]
+
+/-- `Epoch.moslem2gregorian` with float arguments `h + fh, m + fm, d + fd` (fractions in `[0, 1)`):
+    ValueError exactly when the FLOATS fail the range test -- in particular day `30 + fd` and month
+    `12 + fm` with a positive fraction are refused although their integer parts are accepted --
+    otherwise the result of the integer parts. -/
+theorem moslem2gregorian_float_args (h m d : Int) (fh fm fd : ℚ)
+    (h0 : 0 ≤ fh) (h1 : fh < 1) (m0 : 0 ≤ fm) (m1 : fm < 1) (d0 : 0 ≤ fd) (d1 : fd < 1) :
+    moslem2gregorian_num ((h : ℚ) + fh) ((m : ℚ) + fm) ((d : ℚ) + fd) =
+      if d < 1 ∨ 30 < (d : ℚ) + fd ∨ m < 1 ∨ 12 < (m : ℚ) + fm ∨ h < 1 then .error .valueError
+      else moslem2gregorian h m d := by
+  unfold moslem2gregorian_num plt
+  rw [pfloor_add_frac h fh h0 h1, pfloor_add_frac m fm m0 m1, pfloor_add_frac d fd d0 d1]
+  have e1 : ((d : ℚ) + fd < 1) ↔ d < 1 := by
+    constructor
+    · intro hh; by_contra hc; have : (1 : ℚ) ≤ (d : ℚ) := by exact_mod_cast (by omega : 1 ≤ d)
+      linarith
+    · intro hh; have : (d : ℚ) ≤ 0 := by exact_mod_cast (by omega : d ≤ 0)
+      linarith
+  have e2 : ((m : ℚ) + fm < 1) ↔ m < 1 := by
+    constructor
+    · intro hh; by_contra hc; have : (1 : ℚ) ≤ (m : ℚ) := by exact_mod_cast (by omega : 1 ≤ m)
+      linarith
+    · intro hh; have : (m : ℚ) ≤ 0 := by exact_mod_cast (by omega : m ≤ 0)
+      linarith
+  have e3 : ((h : ℚ) + fh < 1) ↔ h < 1 := by
+    constructor
+    · intro hh; by_contra hc; have : (1 : ℚ) ≤ (h : ℚ) := by exact_mod_cast (by omega : 1 ≤ h)
+      linarith
+    · intro hh; have : (h : ℚ) ≤ 0 := by exact_mod_cast (by omega : h ≤ 0)
+      linarith
+  simp only [Bool.or_eq_true, decide_eq_true_eq, e1, e2, e3]
+  simp only [or_assoc]
+
+/-- the same for `Epoch.gregorian2moslem` (day `31 + fd`, month `12 + fm` refused; year floored). -/
+theorem gregorian2moslem_float_args (y m d : Int) (fy fm fd : ℚ)
+    (y0 : 0 ≤ fy) (y1 : fy < 1) (m0 : 0 ≤ fm) (m1 : fm < 1) (d0 : 0 ≤ fd) (d1 : fd < 1) :
+    gregorian2moslem_num ((y : ℚ) + fy) ((m : ℚ) + fm) ((d : ℚ) + fd) =
+      if d < 1 ∨ 31 < (d : ℚ) + fd ∨ m < 1 ∨ 12 < (m : ℚ) + fm ∨ y < -4712 then .error .valueError
+      else gregorian2moslem y m d := by
+  unfold gregorian2moslem_num plt
+  rw [pfloor_add_frac y fy y0 y1, pfloor_add_frac m fm m0 m1, pfloor_add_frac d fd d0 d1]
+  have e1 : ((d : ℚ) + fd < 1) ↔ d < 1 := by
+    constructor
+    · intro hh; by_contra hc; have : (1 : ℚ) ≤ (d : ℚ) := by exact_mod_cast (by omega : 1 ≤ d)
+      linarith
+    · intro hh; have : (d : ℚ) ≤ 0 := by exact_mod_cast (by omega : d ≤ 0)
+      linarith
+  have e2 : ((m : ℚ) + fm < 1) ↔ m < 1 := by
+    constructor
+    · intro hh; by_contra hc; have : (1 : ℚ) ≤ (m : ℚ) := by exact_mod_cast (by omega : 1 ≤ m)
+      linarith
+    · intro hh; have : (m : ℚ) ≤ 0 := by exact_mod_cast (by omega : m ≤ 0)
+      linarith
+  have e3 : ((y : ℚ) + fy < -4712) ↔ y < -4712 := by
+    constructor
+    · intro hh; by_contra hc; have : (-4712 : ℚ) ≤ (y : ℚ) := by exact_mod_cast (by omega : -4712 ≤ y)
+      linarith
+    · intro hh; have : (y : ℚ) ≤ -4713 := by exact_mod_cast (by omega : y ≤ -4713)
+      linarith
+  simp only [Bool.or_eq_true, decide_eq_true_eq, e1, e2, e3]
+  simp only [or_assoc]
+
+-- the float forms on concrete non-trivial inputs (fractions on every argument; the refused boundary)
+example : easter_num 2000.7 = (4, 23) ∧ easter_num (-0.5) = easter 0 ∧ jewish_pesach_num (-0.5) = jewish_pesach (-1) ∧
+    moslem2gregorian_num 1421.5 1.25 1.75 = .ok (2000, 4, .inl 6) ∧
+    moslem2gregorian_num 1421 1 30.5 = .error .valueError ∧ moslem2gregorian_num 1421 1 30 = .ok (2000, 5, .inl 5) ∧
+    gregorian2moslem_num 1991.5 8.5 13.5 = .ok (1412, 2, 2) ∧ gregorian2moslem_num 1991 12.5 1 = .error .valueError := by
+  refine ⟨?_, ?_, ?_, ?_, ?_, ?_, ?_, ?_⟩ <;> decide +kernel
+
 end Pymeeus.C19
